@@ -31,23 +31,11 @@ S == INSTANCE ExplainerSteps WITH FAdd <- QAdd, FSub <- QSub, FMul <- QMul, FDiv
 St == INSTANCE Storages
 Feat == 1..D
 
-(* ---- environment: stream items, model table, loss table ---- *)
-Items == { <<[i \in Feat |-> IF i = 1 THEN 0 ELSE 1], 1>>,
-           <<[i \in Feat |-> 1], 0>>,
-           <<[i \in Feat |-> IF i = 1 THEN 2 ELSE 0], 2>> }
-SumI(f) == FoldSet(LAMBDA i, acc : f[i] + acc, 0, DOMAIN f)
-Model(x) ==
-   IF ModelKind = "scalar"
-   THEN [k \in {0} |-> QInt(SumI([i \in Feat |-> ((i % 2) + 1) * x[i]]) - 1 + x[1] * x[D])]
-   ELSE \* label 2 only appears for some inputs: label sets grow over time
-        [k \in (IF x[1] > 0 THEN {1, 2} ELSE {1}) |->
-            IF k = 1 THEN QInt(SumI([i \in Feat |-> i * x[i]]) + 1) ELSE QInt(x[1] * x[1] + x[D])]
-\* deliberately asymmetric and sign-mixed; quadratic for scalar outputs, linear (but sensitive to every label,
-\* so that a missing label matters) for multi-label outputs to keep the rationals inside 32-bit integers
-Loss(y, p) == IF ModelKind = "scalar"
-              THEN QSub(T!FSumFun([k \in DOMAIN p |-> QSq(QSub(QInt(y * (k + 1)), p[k]))]), QInt(y))
-              ELSE QSub(T!FSumFun([k \in DOMAIN p |-> QMul(QInt((k + 1) * (2 - y)), p[k])]),
-                        QInt(y * Cardinality(DOMAIN p)))
+(* ---- environment: stream items, model table, loss table (IncEnv.tla, shared with AbsExplainer.tla) ---- *)
+Env == INSTANCE IncEnv
+Items == Env!Items
+Model(x) == Env!Model(x)
+Loss(y, p) == Env!Loss(y, p)
 
 VARIABLES
    \* persistent state of the explainer
@@ -129,7 +117,7 @@ ImputeBegin ==
    /\ cb' = cb + 1
 
 \* random draw(s) of one inner sample: joint = one row for all features, product = a row per feature
-Defaults == [f \in Feat |-> 3]                 \* values configured for the DefaultImputer
+Defaults == Env!Defaults                      \* values configured for the DefaultImputer
 Draws == IF pc # "draw" THEN {}
          ELSE IF Strategy = "joint" THEN { [f \in Subset |-> r] : r \in 1..Len(Rows) }
          ELSE IF Strategy = "product" THEN [Subset -> 1..Len(Rows)]
